@@ -126,7 +126,12 @@ def rule_lookahead(R):
         si = rb.switch_info(bb)
         s = peel(si["subject"])
         if is_call(s, "is_none") and chain(s[3][0])[1] == ["packet_length"] and si["edges"].get(True) is not None and cs:
-            okp = rb.must_pass([si["edges"][True]], [idx[0].bb], via_blocks=[c.bb for c in cs])[0]
+            okp = okp or rb.must_pass([si["edges"][True]], [idx[0].bb], via_blocks=[c.bb for c in cs])[0]
+        # canonical reading: the None edge of a test of packet_length
+        if si["enum"] == "core::option::Option" and chain(s)[1][-1:] == ["packet_length"] and si["edges"].get("None") is not None and cs:
+            # the first test of the length (the one that dominates the probe) decides; later matches on it compute the window
+            if all(rb.dominates(bb, c.bb) for c in cs):
+                okp = okp or rb.must_pass([si["edges"]["None"]], [idx[0].bb], via_blocks=[c.bb for c in cs])[0]
     R.ob("look-ahead/probe", okp, "whenever the length is unknown the fixed header is probed before the next window is computed", where=rb.span)
 
 
@@ -191,20 +196,22 @@ def rule_write(R):
         oka = len(idx) == 1
         if oka:
             rng = peel(wa.operand_term(idx[0].args[1]))
-            oka = rng[0] == "agg" and rng[4] == ["start"] and derived_from(rng[5][0], w[0].bb) and peel(rng[5][0])[0] == "ok"
+            oka = rng[0] == "agg" and rng[4] == ["start"] and derived_from(rng[5][0], w[0].bb) and roles.ok_payload_source(rng[5][0]) is not None
             # and the write is given the current cursor
             oka = oka and wa.root_local(w[0].args[1]) == wa.root_local(idx[0].args[0])
     R.ob("write/all-cursor", oka, "write_all continues at bytes[count ..] with exactly the count the transport accepted", where=wa.span)
 
 
 def strip_opt(t):
-    """look through `?`, ok_or, as_ref, copied on an Option/Result value"""
+    """look through `?`, ok_or, as_ref, copied and the payload projection `(x as Some).0` on an Option/Result value"""
     while True:
         t = peel(t)
         if isinstance(t, tuple) and t[0] == "ok":
             t = t[1]
         elif is_call(t, "ok_or", "as_ref", "copied", "cloned", "ok_or_else") and t[3]:
             t = t[3][0]
+        elif isinstance(t, tuple) and t[0] == "field" and t[2] == "0" and t[1][0] == "downcast" and t[1][2] in ("Some", "Ok"):
+            t = t[1][1]
         else:
             return t
 
